@@ -88,7 +88,10 @@ def gen_cases(tier, seed):
                            'cc': rng.random() < 0.3, 'cn': rng.random() < 0.3,
                            'how': rng.choice(HOW),
                            'issuer': rng.choice(ISSUERS),
-                           'delay': rng.choice([0, 0, 1, 2])})
+                           'delay': rng.choice([0, 0, 1, 2]),
+                           # the program empties the handle of the running
+                           # world itself just before asking to switch
+                           'preclear': rng.random() < 0.12})
         yield {'handles': nh, 'script': script,
                # many events sent to the worlds that were left
                'flood': rng.choice([0, 0, 0, 300]),
@@ -431,6 +434,9 @@ def run_case(case):
         st['frames'] = 0
         target = handles[req['target']]
         cur_handle = loop.current_world_handle
+        if req.get('preclear'):
+            cur_handle.clear()
+            res.tags['current_handle_cleared_by_program'].add(True)
         entry('request', world.uid, index=index, issuer=eff,
               target_cached_uid=(uid_of(target()) if target.cached else None),
               current_handle=handles.index(cur_handle),
@@ -646,7 +652,8 @@ def judge(case, res, log, handles):
                         {'handle': nxt['handle'], 'runs': W,
                          'handle_instance': nxt['handle_uid']})
         same_handle = req['target'] == req_entry['current_handle']
-        must_be_fresh = req['cn'] or (req['cc'] and same_handle)
+        must_be_fresh = req['cn'] or (req['cc'] and same_handle) or (
+            bool(req.get('preclear')) and same_handle)
         fresh = W > req_entry['uid_counter']
         if must_be_fresh and not fresh:
             return fail(r, 'not-fresh', 'a clear flag was given but the world '
